@@ -1,10 +1,12 @@
 import Driver.GcDrv
 import Driver.ExcDrv
 import Driver.IdxDrv
+import Driver.VmDrv
 
 def main (args : List String) : IO UInt32 := do
   match args with
   | ["gc"] => GcDrv.main; return 0
   | ["exc"] => ExcDrv.main; return 0
   | ["idx"] => IdxDrv.main; return 0
+  | "vm" :: rest => VmDrv.main rest
   | _ => IO.eprintln "usage: nmdrv gc|..."; return 2
